@@ -170,7 +170,8 @@ theorem stepSimple_xl (c : Ctx) (a : Action) :
   | print e => left; simp only [stepSimple]; exact xl_of_ee (ee_evalOwned c e)
   | printf k e =>
     left; simp only [stepSimple]
-    split <;> exact xl_of_ee (ee_evalOwned c e)
+    have h : (evalOwned c e).1.exitLevel = c.exitLevel := xl_of_ee (ee_evalOwned c e)
+    split <;> exact h
   | closef k => left; simp only [stepSimple]; split <;> rfl
   | getline => left; simp only [stepSimple]; split <;> rfl
   | fail => left; rfl
